@@ -12,7 +12,7 @@ import itertools
 
 from acnportal.acnsim.models import Battery, Linear2StageBattery
 
-from mc.core import Acc
+from mc.core import Acc, guard
 from mc import simspace as S
 from mc.engines import explore_choices
 from mc.props import c02
@@ -132,6 +132,7 @@ def run_sequence(cfg, soc, v, period, pilots, chooser, viol, alt=False):
             try:
                 rate = b.charge(pilot, v, period)
             except Exception as exc:  # no failure is documented for these inputs
+                guard(exc)
                 viol.append(("exception:%s" % type(exc).__name__, "charge(%s,%s,%s) raised %r" % (pilot, v, period, exc), repr(exc), None))
                 return interior
             after = b._current_charge
